@@ -100,11 +100,14 @@ mod data {
 pub struct LookUps;
 include!("attack_lookups_extracted.rs"); // impl LookUps { compute_bishop_attacks, compute_rook_attacks, compute_queen_attacks: verbatim }
 
+static mut MAGIC_BITS: [[u32; 2]; 2] = [[0; 2]; 2];
+
 fn expected(which: usize, sq: u8, occ: u64) -> u64 {
-    let (mask, magic, width) = unsafe {
-        (bb(data::MASK_CELLS[which][sq as usize]), bb(data::MAGIC_CELLS[which][sq as usize]), data::WIDTH_CELLS[which][sq as usize])
-    };
-    let key = (occ & mask).wrapping_mul(magic) >> (64 - width as u32);
+    let (mask, width, [k, j]) = unsafe { (bb(data::MASK_CELLS[which][sq as usize]), data::WIDTH_CELLS[which][sq as usize], MAGIC_BITS[which]) };
+    // (occ & mask) * (2^k | 2^j) mod 2^64, written without a multiplier
+    let x = occ & mask;
+    let product = if k == j { x << k } else { (x << k).wrapping_add(x << j) };
+    let key = product >> (64 - width as u32);
     data::table(which, sq, key as usize)
 }
 
@@ -120,7 +123,13 @@ fn c09_lookups_read_the_masked_magic_key() {
         while w < 2 {
             // only the cells of square s are read; the other cells stay zero (the look-ups must not read them)
             data::MASK_CELLS[w][i as usize] = BitBoard::new(kani::any());
-            data::MAGIC_CELLS[w][i as usize] = BitBoard::new(kani::any());
+            // magic multipliers with one or two bits set (symbolic positions): enough to tell every table cell and every
+            // arithmetic operation apart, and the 64-bit product stays a sum of two shifts for the solver (two fully symbolic
+            // 64-bit multipliers compared for equality did not finish in 10 minutes)
+            let (k, j): (u32, u32) = (kani::any(), kani::any());
+            kani::assume(k < 64 && j < 64);
+            data::MAGIC_CELLS[w][i as usize] = BitBoard::new((1u64 << k) | (1u64 << j));
+            MAGIC_BITS[w] = [k, j];
             let width: u8 = kani::any();
             kani::assume(width >= 1 && width <= 12);
             data::WIDTH_CELLS[w][i as usize] = width;
